@@ -56,6 +56,8 @@ pub fn run_prop(ctx: &Ctx, sink: &mut Sink) {
             "prune".into()
         } else if r < 91 {
             "quit".into()
+        } else if r < 92 {
+            format!("fout:{}", rng.pick(&["ls", "print", "print0", "printf"]))
         } else if r < 94 {
             (*rng.pick(&["noleaf", "daystart", "sorted"])).into()
         } else if r < 96 {
@@ -85,7 +87,8 @@ pub fn run_prop(ctx: &Ctx, sink: &mut Sink) {
         if toks.iter().any(|t| t == "lp") { tags.push("paren"); }
         if toks.iter().any(|t| t == "quit") { tags.push("quit"); }
         if toks.iter().any(|t| t == "prune") { tags.push("prune"); }
-        if !toks.iter().any(|t| t.starts_with("lit:") || t.starts_with("vp:") || t.starts_with("print")) { tags.push("default-print"); }
+        if !toks.iter().any(|t| t.starts_with("lit:") || t.starts_with("vp:") || t.starts_with("print") || t.starts_with("fout:")) { tags.push("default-print"); }
+        if toks.iter().any(|t| t.starts_with("fout:")) { tags.push("file-output-action"); }
         if binary { tags.push("binary"); }
         if multi { tags.push("several-starting-points"); }
         if toks.len() >= 3 { tags.push("nt"); }
